@@ -154,11 +154,20 @@ def eval_container(res, cont, node, entries):
                                    "unnamed slot admitting the same type")
                 slot = s
             else:
-                if unnamed:
+                if not unnamed:
+                    raise Reject("match", "name %r reserved for another "
+                                 "type" % name)
+                # the section fits an unnamed slot by type and name rule,
+                # which is all the statement asks for; the implementation
+                # agrees when that slot is declared before the fixed-name
+                # slot of the other type and refuses otherwise (not pinned)
+                if not any(order[id(u)] < order[id(s)] for u in unnamed):
                     raise Unjudged("reserved name with non-fitting type "
-                                   "while an unnamed slot admits the type")
-                raise Reject("match", "name %r reserved for another type"
-                             % name)
+                                   "declared before the unnamed slot that "
+                                   "admits the type")
+                if len(unnamed) > 1:
+                    raise Unjudged("two unnamed slots admit type %r" % tname)
+                slot = unnamed[0]
         else:
             if len(unnamed) > 1:
                 raise Unjudged("two unnamed slots admit type %r" % tname)
